@@ -190,7 +190,7 @@ const (
 func c10Run(rt *hookrt.Runtime, sc *c10Scenario, seed int64) {
 	rt.Reset()
 	rt.Filter(func(point string, keys []string) bool {
-		return strings.HasPrefix(point, "router.life.") || strings.HasPrefix(point, "api.")
+		return strings.HasPrefix(point, "router.life.") || strings.HasPrefix(point, "api.") || strings.HasPrefix(point, "router.handler.handleclose.")
 	})
 	if !sc.Forced || seed%2 == 0 {
 		rt.Perturb("*", 0.2)
